@@ -975,7 +975,7 @@ class Exec:
                 q = p.fork()
                 q.assume(cond)
                 if c.raise_dirty:
-                    self.havoc(q, c.modifies)
+                    self.havoc(q, c.modifies, env)
                 self._raises.append((q, VExc(ecls.split("#")[0], (), getattr(node, "lineno", None))))
         if conds:
             nc = z3.Not(z3.Or(*conds))
@@ -984,7 +984,7 @@ class Exec:
             p.assume(nc)
         # normal exit
         oldp = p.fork()
-        self.havoc(p, c.modifies)
+        self.havoc(p, c.modifies, env)
         assumptions = []
         res = NONE
         if c.result is not None:
@@ -999,11 +999,26 @@ class Exec:
             res = post.value(c.result_expr)
         yield p, res
 
-    def havoc(self, p, modifies):
+    def havoc(self, p, modifies, env=None):
         for m in modifies:
             if m.startswith("heap."):
                 fld = m[5:]
-                if fld in p.heap:
+                at = None
+                if "@" in fld:
+                    fld, at = fld.split("@")
+                if fld not in p.heap:
+                    srt = None
+                    for flds in self.reg.classes.values():
+                        if fld in flds:
+                            srt = flds[fld]
+                    if srt is None:
+                        raise Unsupported("modifies of undeclared field %s" % fld)
+                    self.bi.heap_array(p, fld, srt)
+                if at is not None:
+                    o = env[at]
+                    cell = V.fresh("h_" + fld, p.heap[fld].sort().range())
+                    p.heap[fld] = z3.Store(p.heap[fld], o.t, cell)
+                else:
                     p.heap[fld] = V.fresh("h_" + fld, p.heap[fld].sort())
             elif m in p.sigma:
                 p.sigma[m] = V.fresh("s_" + m, p.sigma[m].sort())
